@@ -315,4 +315,9 @@ theorem pyDelitem_list {env : MEnv} {h : Heap} {a : Nat} {c : String} {xs : List
         intro n
         rw [List.getElem?_eraseIdx]
 
+theorem covered_parts {env : MEnv} {orig : List Step} (hy : C12.covered env orig = true) :
+    C12.WF env = true ∧ classesOK env = true ∧ C01.wfSteps orig = true := by
+  simp only [C12.covered, Bool.and_eq_true] at hy
+  exact ⟨hy.1.1, hy.1.2, hy.2⟩
+
 end Glom.C12
